@@ -108,8 +108,29 @@ def _shuffle_lammpstrj_rows(fn, seed):
     open(fn, "w").write("\n".join(out) + "\n")
 
 
-def _file(fmt, nf, na, cell, seed, idx=0, rows=None):
+# files written by other programs, as shipped with mdtraj's own tests (copied to seeds/stored): 22 atoms, 501 frames (mdcrd: 1002)
+STORED = {"xtc": 501, "trr": 501, "dcd": 501, "nc": 501, "h5": 501, "gro": 501, "lammpstrj": 501, "mdcrd": 1002, "xyz": 501,
+          "xyz.gz": 501, "pdb.gz": 501}
+_STORED = {}
+
+
+def _stored(fmt):
+    import mdtraj as md
+    if fmt not in _STORED:
+        d = os.path.join(files.VERIF, "seeds", "stored")
+        with warnings.catch_warnings():
+            warnings.simplefilter("ignore")
+            if "top" not in _STORED:
+                _STORED["top"] = md.load_frame(os.path.join(d, "frame0.pdb.gz"), 0)
+            fn = os.path.join(d, "frame0." + fmt)
+            _STORED[fmt] = (fn, _STORED["top"], files.load(fn, fmt, _STORED["top"].topology))
+    return _STORED[fmt]
+
+
+def _file(fmt, nf, na, cell, seed, idx=0, rows=None, stored=False):
     """saved test file + its full load, cached per process"""
+    if stored:
+        return _stored(fmt)
     key = (fmt, nf, na, cell, seed, idx, rows)
     if key in _CACHE:
         return _CACHE[key][1:]
@@ -158,6 +179,22 @@ def strategy(draw, tier="quick"):
     case = {"fmt": fmt, "nf": nf, "na": na, "cell": cell, "seed": draw(st.integers(0, 3)), "op": op}
     if fmt == "lammpstrj" and na >= 2 and draw(st.booleans()):
         case["rows"] = "shuffled"       # a dump as LAMMPS writes it without `dump_modify sort id`
+    if fmt in STORED and draw(st.integers(0, 9)) == 0:
+        # a file written by another program (mdtraj's own test data): long, so only coarse requests
+        nf, na = STORED[fmt], 22
+        case = {"fmt": fmt, "nf": nf, "na": na, "cell": "stored", "seed": 0, "op": op, "stored": True}
+        if draw(st.booleans()):
+            case["atoms"] = sorted(set(draw(st.lists(st.integers(0, na - 1), min_size=1, max_size=na))))
+        if op in ("stride", "iterload", "list"):
+            case["stride"] = draw(st.sampled_from([1, 2, 3, 7, 50, 100, 250, 500, 501]))
+        if op == "frame":
+            case["frame"] = draw(st.sampled_from([0, 1, nf // 2, nf - 2, nf - 1]))
+        if op == "iterload":
+            case["chunk"] = draw(st.sampled_from([0, 100, 167, 250, nf - 1, nf, nf + 1]))
+            case["skip"] = draw(st.sampled_from([0, 1, 100, nf - 1, nf]))
+        if op == "list":
+            case["k"] = draw(st.integers(1, 2))
+        return _avoid(case, _open_keys(), draw(st.booleans()))
     if draw(st.booleans()):
         if na >= 7 and draw(st.integers(0, 2)) == 0:
             # almost-regular subsets: an arithmetic progression with one interior element moved by one - the shapes a
@@ -227,7 +264,9 @@ def _run_case(case):
     import mdtraj as md
     viol, labels = [], ["fmt:" + case["fmt"], "op:" + case["op"]] + list(case.get("excluded", []))
     fmt, nf, na = case["fmt"], case["nf"], case["na"]
-    fn, tr, full = _file(fmt, nf, na, case["cell"], case["seed"], rows=case.get("rows"))
+    fn, tr, full = _file(fmt, nf, na, case["cell"], case["seed"], rows=case.get("rows"), stored=case.get("stored", False))
+    if case.get("stored"):
+        labels.append("stored-foreign-file")
     if case.get("rows"):
         labels.append("rows:" + case["rows"])
         if getattr(full, "_row_order_diff", None):
@@ -266,7 +305,7 @@ def _run_case(case):
                 k = case["k"]
                 fns, fulls, fulls_all = [], [], []
                 for j in range(k):
-                    f_j, _t, full_j = _file(fmt, nf, na, case["cell"], case["seed"], idx=j, rows=case.get("rows"))
+                    f_j, _t, full_j = _file(fmt, nf, na, case["cell"], case["seed"], idx=j, rows=case.get("rows"), stored=case.get("stored", False))
                     fns.append(f_j)
                     fulls.append(full_j[::stride])
                     fulls_all.append(full_j)
